@@ -428,6 +428,13 @@ func visitInstr(fr *frame, instr ssa.Instruction) continuation {
 		}
 		k := checkIndex(idx, len(elems))
 		if k < 0 {
+			if indexAddrIsLoadOnly(instr) {
+				if v, ok := selectTerm(idx.(Sym), elems); ok {
+					cell := v
+					fr.env[instr] = &cell
+					break
+				}
+			}
 			k = concretizeIndex(idx.(Sym), elems, indexAddrIsLoadOnly(instr))
 		}
 		fr.env[instr] = &elems[k]
@@ -440,6 +447,10 @@ func visitInstr(fr *frame, instr ssa.Instruction) continuation {
 		case array:
 			k := checkIndex(idx, len(x))
 			if k < 0 {
+				if v, ok := selectTerm(idx.(Sym), []value(x)); ok {
+					fr.env[instr] = v
+					break
+				}
 				k = concretizeIndex(idx.(Sym), []value(x), true)
 			}
 			fr.env[instr] = x[k]
@@ -589,7 +600,13 @@ func callSSA(i *interpreter, caller *frame, callpos token.Pos, fn *ssa.Function,
 	}
 	if fn.Parent() == nil {
 		name := fn.String()
-		if ext := externals[name]; ext != nil {
+		ext := externals[name]
+		if ext == nil {
+			if k := strings.IndexByte(name, '['); k > 0 {
+				ext = externals[name[:k]] // model of a generic function, for every instantiation
+			}
+		}
+		if ext != nil {
 			X.ExtCalls[name]++
 			if !strings.Contains(name, "zz_verif") && !enumAware[name] {
 				for k := range args {
